@@ -13,10 +13,12 @@ for name in names:
     what = re.sub(r"\s+", " ", m["what"]).strip()
     short = what.split(". ")[0][:230].replace("|", "\\|")
     out = "caught by %s" % m["property"]
-    if m.get("also"):
+    if m.get("uncaught"):
+        out = "NOT caught by any check"
+    elif m.get("also"):
         out = "NOT caught by %s itself (see note); caught by %s" % (m["property"], ", ".join(m["also"]))
     if name in notes:
-        out += "; " + ("first MISSED, then: " if not m.get("also") else "") + notes[name]
+        out += "; " + ("first MISSED, then: " if not (m.get("also") or m.get("uncaught")) else "") + notes[name]
     rows.append("| %s | %s | %s | %s |" % (name, ", ".join(m.get("files", [])).replace("jsonschema/", ""), short, out))
 text = """
 ### 10.8 Independently seeded breaking changes (`seeded/<Cnn-k>/`, `tools/seeded.py`)
